@@ -55,7 +55,7 @@ def register(P):
     reg(P, "C18", ["UtpVerif.Props.C18"], ["stream_content", "nagle", "nagle_off"])
     reg(P, "C05", ["UtpVerif.Props.C05"], ["window", "slow_start", "cc_accounting"])
     reg(P, "C07", ["UtpVerif.Props.C07"], ["ack_timeliness", "ack_forcing", "window_reopen"])
-    reg(P, "C17", ["UtpVerif.Props.C17"], ["stream_content", "fin_sent", "fin_answered", "reset", "rtx_timer"])
+    reg(P, "C17", ["UtpVerif.Props.C17", "UtpVerif.Props.C17Fin"], ["stream_content", "fin_sent", "fin_answered", "reset", "rtx_timer"])
     reg(P, "C01", ["UtpVerif.Props.C01", "UtpVerif.Props.C01E2E"], ["stream_content", "read_content"], ["segs", "txring", "rx"])
     reg(P, "C02", ["UtpVerif.Props.C02"], ["calls_resolve", "ack_timeliness", "rtx_timer", "zero_window_probe", "window_reopen", "idle_promptness", "stuck"], ["txring", "rx"])
     reg(P, "C03", ["UtpVerif.Props.C03"], ["calls_resolve", "stream_content", "ack_honesty", "fin_sent", "eof_honest", "completion_honest", "read_content"], ["txring", "rx"])
